@@ -213,6 +213,15 @@ impl<'a> Verdict<'a> {
             match e {
                 v1::BinaryParseError::Parse(p) => e1(p),
                 v1::BinaryParseError::InvalidUtf8(_) => "InvalidUtf8".to_string(),
+                // a variant this harness does not know (the tree under test may have gained one)
+                #[allow(unreachable_patterns)]
+                other => {
+                    let s = format!("{:?}", other);
+                    match s.find('(') {
+                        Some(i) => s[..i].to_string(),
+                        None => s,
+                    }
+                }
             }
         }
         match self {
@@ -234,6 +243,8 @@ impl<'a> Verdict<'a> {
             Verdict::Auto(HeaderResult::V1(Err(e))) | Verdict::V1B(Err(e)) => match e {
                 v1::BinaryParseError::Parse(p) => Some(Ok(p)),
                 v1::BinaryParseError::InvalidUtf8(u) => Some(Err(u)),
+                #[allow(unreachable_patterns)]
+                _ => None,
             },
             Verdict::V1T(Err(e)) | Verdict::V1FH(Err(e)) | Verdict::V1FA(Err(e)) => Some(Ok(e)),
             _ => None,
@@ -374,6 +385,138 @@ pub struct RunEnd {
     pub stream_read: usize,
 }
 
+/// Thread teardown: a thread whose own destructor-bearing thread-local was first used before its
+/// first call into the library, and whose destructor calls the library once more (a connection
+/// object flushed at thread exit). `library_first` reverses the order of first use. Returns a
+/// description of every library call that did not return normally while the thread was being
+/// torn down. The thread is joined before this returns: nothing runs concurrently.
+pub fn teardown_probe(stream: &[u8], library_first: bool) -> Vec<String> {
+    use std::sync::{Arc, Mutex};
+    struct Flush {
+        stream: Vec<u8>,
+        report: Arc<Mutex<Vec<String>>>,
+    }
+    impl Drop for Flush {
+        fn drop(&mut self) {
+            for entry in Entry::ALL {
+                if let Err(desc) = parse(entry, &self.stream) {
+                    self.report
+                        .lock()
+                        .unwrap()
+                        .push(format!("{} during thread teardown: {}", entry.name(), desc));
+                }
+            }
+            let built = guard(|| {
+                v2::Builder::new(0x21, 0x11)
+                    .write_tlv(4u8, &[1u8, 2, 3][..])
+                    .and_then(|b| b.build())
+                    .map(|h| v2::Header::try_from(&h[..]).map(|h| h.tlvs().count()).unwrap_or(0))
+                    .unwrap_or(0)
+            });
+            if let Err(desc) = built {
+                self.report
+                    .lock()
+                    .unwrap()
+                    .push(format!("builder / TLV walk during thread teardown: {}", desc));
+            }
+        }
+    }
+    thread_local! {
+        static FLUSH: RefCell<Option<Flush>> = const { RefCell::new(None) };
+    }
+    let report = Arc::new(Mutex::new(Vec::new()));
+    let r2 = report.clone();
+    let bytes = stream.to_vec();
+    let t = std::thread::spawn(move || {
+        // the harness' own panic bookkeeping must outlive everything else on this thread
+        let _ = guard(|| ());
+        LAST_PANIC.with(|p| p.borrow_mut().take());
+        let touch_library = |b: &[u8]| {
+            for entry in Entry::ALL {
+                neighbor_step(entry, b);
+            }
+            let _ = guard(|| v2::Builder::new(0x21, 0x11).write_payload(1u8).and_then(|b| b.build()));
+        };
+        if library_first {
+            touch_library(&bytes);
+        }
+        FLUSH.with(|f| {
+            *f.borrow_mut() = Some(Flush {
+                stream: bytes.clone(),
+                report: r2,
+            })
+        });
+        touch_library(&bytes);
+    });
+    let _ = t.join();
+    let v = report.lock().unwrap().clone();
+    v
+}
+
+/// Calls made on behalf of somebody else between two calls of a judged receiver: a few partial
+/// and complete inputs through every entry point, results dropped. With a library that keeps
+/// nothing between calls this is a no-op; with one that does, it displaces whatever was
+/// remembered, so that the next judged call shows whether its verdict depended on it.
+pub fn perturb() {
+    const INPUTS: [&[u8]; 6] = [
+        b"PROXY TCP4 9.9.9.9 8.8.8.8 1 ",
+        b"PROXY UNKNOWN",
+        b"PROXY TCP6 ::1 ::2 7 8\r\n",
+        b"\r\n\r\n\0\r\nQUIT\n\x21",
+        b"\r\n\r\n\0\r\nQUIT\n\x21\x11\x00\x0f\x7f\x00\x00\x01\x7f\x00\x00\x02\x00\x50\x01\xbb\x04\x00\x00",
+        b"",
+    ];
+    for input in INPUTS {
+        for entry in Entry::ALL {
+            neighbor_step(entry, input);
+        }
+    }
+}
+
+/// Buffer pool: the allocation is sized once for whatever it will ever hold; an earlier
+/// connection (`sc.recycled`) received — and was parsed — in it behind `headroom` bytes; then the
+/// buffer went back to the pool. Leaves `backing` truncated to the headroom.
+pub fn recycle(backing: &mut Vec<u8>, headroom: usize, sc: &Scenario) {
+    if let Some(prev) = &sc.recycled {
+        backing.truncate(headroom);
+        backing.reserve(sc.stream.len().max(prev.stream.len()) + 8);
+        for &c in &prev.cuts {
+            let c = c.min(prev.stream.len());
+            backing.truncate(headroom);
+            backing.extend_from_slice(&prev.stream[..c]);
+            neighbor_step(prev.entry, &backing[headroom..]);
+        }
+        backing.truncate(headroom);
+    }
+}
+
+/// The other connections handled by the judged receiver's thread (`sc.neighbors`): each has its
+/// own buffer; `step` lets each receive up to its next cut point and call the library.
+pub struct Others {
+    state: Vec<(Vec<u8>, usize)>,
+}
+
+impl Others {
+    pub fn new(sc: &Scenario) -> Others {
+        Others {
+            state: sc.neighbors.iter().map(|_| (Vec::new(), 0)).collect(),
+        }
+    }
+    pub fn step(&mut self, sc: &Scenario) {
+        for (n, (buf, next)) in sc.neighbors.iter().zip(self.state.iter_mut()) {
+            if let Some(&c) = n.cuts.get(*next) {
+                let c = c.min(n.stream.len());
+                if c > buf.len() {
+                    let from = buf.len();
+                    buf.extend_from_slice(&n.stream[from..c]);
+                }
+                *next += 1;
+                neighbor_step(n.entry, buf);
+            }
+        }
+    }
+}
+
 /// Drive the receive loop over the scenario's transport events. `on_step` is
 /// called after every event with the receiver's buffer; it returns `false` to
 /// stop reading (the receiver has its verdict / gave up).
@@ -396,33 +539,10 @@ pub fn drive(
     // the parser has a varying alignment and is preceded by unrelated bytes.
     let headroom = (sc.stream.len() + 3 * sc.events.len() + sc.bufcap) % 8;
     let mut backing: Vec<u8> = vec![0x5a; headroom];
-    if let Some(prev) = &sc.recycled {
-        // buffer pool: the allocation is sized once for whatever it will ever hold, an earlier
-        // connection received (and was parsed) in it, then the buffer went back to the pool
-        backing.reserve(sc.stream.len().max(prev.stream.len()) + 8);
-        for &c in &prev.cuts {
-            let c = c.min(prev.stream.len());
-            backing.truncate(headroom);
-            backing.extend_from_slice(&prev.stream[..c]);
-            neighbor_step(prev.entry, &backing[headroom..]);
-        }
-        backing.truncate(headroom);
-    }
-    // the other connections of this event loop: (buffer, next cut)
-    let mut others: Vec<(Vec<u8>, usize)> = sc.neighbors.iter().map(|_| (Vec::new(), 0)).collect();
-    let mut interleave = |others: &mut Vec<(Vec<u8>, usize)>| {
-        for (n, (buf, next)) in sc.neighbors.iter().zip(others.iter_mut()) {
-            if let Some(&c) = n.cuts.get(*next) {
-                let c = c.min(n.stream.len());
-                if c > buf.len() {
-                    let from = buf.len();
-                    buf.extend_from_slice(&n.stream[from..c]);
-                }
-                *next += 1;
-                neighbor_step(n.entry, buf);
-            }
-        }
-    };
+    recycle(&mut backing, headroom, sc);
+    // the other connections of this event loop
+    let mut others = Others::new(sc);
+    let mut interleave = |others: &mut Others| others.step(sc);
     let mut available = 0usize; // bytes sitting in the socket
     let mut sent = 0usize; // bytes of sc.stream the transport has released
     let mut read = 0usize; // bytes of sc.stream the receiver has read
